@@ -274,6 +274,20 @@ def main(argv=None):
                                                              rec.get("cex_message", ""))
                         break
                     v["detail"] = "counterexample %r did not reproduce natively: %s" % (cex, nat.get("detail") or nat.get("result"))
+        elif st == "BUILD_FAILED":
+            # the harness module could not build its retorts / loaders / converters and the exception came out of the code under test:
+            # confirmed by importing the module natively; reported once per module
+            nat = native_replay(mpaths[ob.module], "__build__", {}, seed)
+            v["replays"] += 1
+            if nat.get("status") == "OK" and nat.get("reproduced"):
+                v["verdict"] = "REFUTED"
+                v["cex"] = {"__build__": ob.module}
+                v["detail"] = "generation failed while the harness module was built: " + str(nat.get("exc"))[:600]
+                v["native"] = {"result": None, "exc": nat.get("exc")}
+                v["replay_path"] = write_replay_file(pid, ob.module + "__build", mpaths[ob.module], "__build__", {}, nat, v["detail"])
+            else:
+                v["verdict"] = "INCONCLUSIVE"
+                v["detail"] = "build failure under the engine only: " + str(rec.get("detail"))[:400]
         elif st == "CONFIRMED":
             v["verdict"] = "CONFIRMED"
         elif st in ("EXPLORED", "UNKNOWN"):
@@ -356,9 +370,12 @@ def main(argv=None):
         print(line)
     for line in inconclusive_lines:
         print(line)
+    printed = set()
     for v in violations:
         print(f"REFUTED obligation={v['obligation']} cex={v.get('cex')} native={v.get('native')}")
-        print(f"VIOLATION property={pid} replay={v['replay_path']}")
+        if v["replay_path"] not in printed:           # a build failure is one violation for all obligations of the module
+            printed.add(v["replay_path"])
+            print(f"VIOLATION property={pid} replay={v['replay_path']}")
 
     n_obs = len(verdicts)
     n_conf = sum(1 for v in verdicts.values() if v["verdict"] == "CONFIRMED")
